@@ -18,6 +18,7 @@ CONSTANTS
   Comments = {}
   MaxComments = 0
   FaultKinds = {}
+  PrintOpts <- AllPrintOpts
 INVARIANT Verdict
 INVARIANT RepeatedSpeciesSummed
 INVARIANT InactiveNeverActive
